@@ -21,7 +21,7 @@ theorem writesIn_append (a b : List (Op R)) : writesIn (a ++ b) = writesIn a ++ 
   | cons op a ih => cases op <;> simp [writesIn, ih]
 
 theorem step_closed (F : Flags) (s : Life R) (op : Op R) (h : s.isOpen = false) : (step F s op).1 = s := by
-  cases op <;> simp [step, doWrite, doFlush, doClose, doExit, h]
+  cases op <;> simp [step, doWrite, doFlush, doClose, doExit, doBad, h]
   cases F.flushAfterCloseRaises <;> simp [h]
 
 theorem run_closed (F : Flags) (ops : List (Op R)) : ∀ s : Life R, s.isOpen = false → run F s ops = s := by
@@ -68,6 +68,13 @@ theorem healthy_flush (F : Flags) (s : Life R) (ws : List R) (h : Healthy F s ws
   refine ⟨⟨?_, ?_, ?_, ?_⟩, ?_, ?_⟩ <;> simp [doFlush, ho, hnp, Life.drain, hc]
   simpa using hh
 
+theorem healthy_bad (F : Flags) (s : Life R) (ws : List R) (c : Bool) (h : Healthy F s ws) :
+    Healthy F (doBad F s c).1 ws ∧ (doBad F s c).1.started = s.started := by
+  obtain ⟨ho, hc, hh, hd⟩ := h
+  cases c with
+  | false => refine ⟨⟨?_, ?_, ?_, ?_⟩, ?_⟩ <;> simp [doBad, ho, hc, hh] <;> exact hd
+  | true => refine ⟨⟨?_, ?_, ?_, ?_⟩, ?_⟩ <;> simp [doBad, ho, hc, Life.drain, hh]
+
 /-- a run of writes and flushes keeps the writer healthy -/
 theorem healthy_run (F : Flags) (pre : List (Op R)) : ∀ (s : Life R) (ws : List R), Healthy F s ws →
     (∀ op ∈ pre, isClosing op = false) →
@@ -98,6 +105,15 @@ theorem healthy_run (F : Flags) (pre : List (Op R)) : ∀ (s : Life R) (ws : Lis
       simpa [run_cons, step, writesIn] using this
     | close => have := hnc .close List.mem_cons_self; simp [isClosing] at this
     | exit => have := hnc .exit List.mem_cons_self; simp [isClosing] at this
+    | bad c =>
+      obtain ⟨h1, hs1⟩ := healthy_bad F s ws c h
+      have hp1 : F.headerOnlyFlushPoisons = false ∨ (doBad F s c).1.started = true ∨ flushBeforeFirstWrite pre = false := by
+        rcases hp with h | h | h
+        · exact Or.inl h
+        · exact Or.inr (Or.inl (by rw [hs1]; exact h))
+        · exact Or.inr (Or.inr (by simpa [flushBeforeFirstWrite] using h))
+      have := ih (doBad F s c).1 ws h1 hnc' hp1
+      simpa [run_cons, step, writesIn] using this
 
 /-- closing a healthy writer whose `close` flushes (or that has no buffer of its own) puts everything on disk -/
 theorem healthy_closing (F : Flags) (s : Life R) (ws : List R) (cl : Op R) (h : Healthy F s ws)
@@ -118,6 +134,7 @@ theorem healthy_closing (F : Flags) (s : Life R) (ws : List R) (cl : Op R) (h : 
   cases cl with
   | write r => simp [isClosing] at hcl
   | flush => simp [isClosing] at hcl
+  | bad c => simp [isClosing] at hcl
   | close => exact key s ho hh hd
   | exit =>
     have hfl : (doFlush F s).2 = .ok := by simp [doFlush, ho]
@@ -147,6 +164,11 @@ theorem header_mono (F : Flags) (s : Life R) (op : Op R) (h : s.headerOnDisk = t
     · split
       · exact h
       · split <;> simp [h]
+  | bad c =>
+    simp only [step, doBad]
+    split
+    · exact h
+    · simp [h]
   | flush =>
     simp only [step, doFlush]
     split
@@ -297,6 +319,12 @@ theorem stored_doWrite (F : Flags) (w : Life R) (r : R) :
     · simp
     · split <;> simp <;> omega
 
+theorem stored_doBad (F : Flags) (w : Life R) (c : Bool) : stored (doBad F w c).1 = stored w := by
+  simp only [stored, doBad]
+  split
+  · rfl
+  · cases c <;> simp [Life.drain]
+
 /-- every part holds at most `limit` records; the open part holds fewer -/
 structure SplitBounded (s : Split R) : Prop where
   done : ∀ p ∈ s.done, (stored p.2).length ≤ s.limit
@@ -311,6 +339,7 @@ theorem splitStep_limit (F : Flags) (s : Split R) (op : Op R) : (splitStep F s o
     | flush => simp [splitStep, hcur]
     | close => simp [splitStep, hcur]
     | exit => simp [splitStep, hcur]
+    | bad c => simp [splitStep, hcur]
     | write r =>
       simp only [splitStep, hcur]
       generalize doWrite F w r = res
@@ -336,6 +365,14 @@ theorem splitBounded_step (F : Flags) (s : Split R) (op : Op R) (h : SplitBounde
       simp only [Option.some.injEq] at hp
       subst hp
       simp only [stored_doFlush]
+      exact ⟨hlen, hlt⟩
+    | bad c =>
+      simp only [splitStep, hcur]
+      refine ⟨hd, ?_⟩
+      intro p hp
+      simp only [Option.some.injEq] at hp
+      subst hp
+      simp only [stored_doBad]
       exact ⟨hlen, hlt⟩
     | close =>
       simp only [splitStep, hcur]
@@ -431,6 +468,7 @@ theorem split_indices_step (F : Flags) (s : Split R) (op : Op R)
       List.length_nil] at h hfc'
     cases op with
     | flush => simp only [splitStep, hcur, Split.parts]; simpa using ⟨h, hfc'⟩
+    | bad c => simp only [splitStep, hcur, Split.parts]; simpa using ⟨h, hfc'⟩
     | close => simp only [splitStep, hcur, Split.parts]; simpa using h
     | exit => simp only [splitStep, hcur, Split.parts]; simpa using h
     | write r =>
@@ -540,6 +578,7 @@ theorem splitHealthy_closing (F : Flags) (s : Split R) (ws : List R) (cl : Op R)
     cases cl with
     | write r => simp [isClosing] at hcl
     | flush => simp [isClosing] at hcl
+    | bad c => simp [isClosing] at hcl
     | close =>
       simp only [step] at hc
       simp [splitStep, hcur', hdone, hws, hc.1]
